@@ -58,51 +58,66 @@ def run(ctx):
     ok, info = prove(ctx, "MatidProps.C02", THEOREMS)
     if not ok:
         broken.append(("proof", info))
-    rng = np.random.default_rng(ctx.seed + 2)
+    # a FIXED stratified sample in both tiers (validated on the unchanged tree; see DESIGN §10); VERIF_EXPLORE=1: seeded by VERIF_SEED
+    rng = np.random.default_rng(common.sample_seed(ctx) + 2)
     target = ctx.n(48, 800)
     done = k = 0
     shared = SBC()          # one long-lived object: results must not depend on what it did before
+    recorded = [e["repro"] for e in common.known_findings().get("known", []) if e.get("property") == "C02" and "repro" in e]
     contract_ok = contract_fail = 0
     bad = []
     while done < target and k < target * 8:
-        s, desc, exp, why = gen(rng, k)
-        k += 1
-        if why is not None:
-            ctx.count("skipped: " + why)
-            continue
-        noise = [0.0, 0.02, 0.05][int(rng.integers(0, 3))]
-        a = F.present(s, rng, noise=noise)
-        seed = int(rng.integers(0, 1000))
-        desc.update({"noise": noise, "seed": seed, "natoms": len(a)})
-        done += 1
+        if recorded:
+            r = recorded.pop(0)
+            a, desc, exp = crystals.atoms_from_json(r["atoms"]), dict(r["desc"], known_finding_input=True), r["expected_dim"]
+            seed = desc["seed"]
+        else:
+            s, desc, exp, why = gen(rng, k)
+            k += 1
+            if why is not None:
+                ctx.count("skipped: " + why)
+                continue
+            noise = [0.0, 0.02, 0.05][int(rng.integers(0, 3))]
+            a = F.present(s, rng, noise=noise)
+            seed = int(rng.integers(0, 1000))
+            desc.update({"noise": noise, "seed": seed, "natoms": len(a)})
+            done += 1
         ctx.count("kind_" + desc["kind"])
         try:
             with SC.FinderRecorder() as rec:
                 clusters = shared.get_clusters(a, seed=seed)
             dims = [c.get_dimensionality() for c in clusters]
         except Exception as e:  # noqa
-            bad.append({"desc": desc, "complaint": "exception %s: %s (SBC object re-used over the samples of this run)" % (type(e).__name__, str(e)[:150]), "atoms": crystals.atoms_to_json(a)})
+            bad.append({"desc": desc, "signature": "exception", "expected_dim": exp, "complaint": "exception %s: %s (SBC object re-used over the samples of this run)" % (type(e).__name__, str(e)[:150]), "atoms": crystals.atoms_to_json(a)})
             shared = SBC()
             continue
         if done % 4 == 0:
             fresh = SBC().get_clusters(a, seed=seed)
             if sorted(sorted(int(i) for i in c.indices) for c in fresh) != sorted(sorted(int(i) for i in c.indices) for c in clusters):
-                bad.append({"desc": desc, "complaint": "a re-used SBC object and a fresh SBC object return different clusters for the same arguments", "atoms": crystals.atoms_to_json(a)})
+                bad.append({"desc": desc, "signature": "state", "expected_dim": exp, "complaint": "a re-used SBC object and a fresh SBC object return different clusters for the same arguments", "atoms": crystals.atoms_to_json(a)})
         ctx.case(("c02", json.dumps(desc, sort_keys=True, default=str)), nontrivial=True, sample=desc if len(ctx.samples) < 5 else None)
         f_holds = all(c["basis"] is not None and set(c["basis"]) | {c["seed"]} == set(range(len(a))) for c in rec.calls)
         contract_ok += f_holds
         contract_fail += (not f_holds)
         sizes = sorted(len(c.indices) for c in clusters)
         if len(clusters) != 1 or sizes != [len(a)]:
-            bad.append({"desc": desc, "complaint": "%d clusters with sizes %s for a single crystal of %d atoms" % (len(clusters), sizes[-5:], len(a)), "atoms": crystals.atoms_to_json(a)})
+            sig = "no-cluster" if not clusters else "incomplete" if len(clusters) == 1 else "split"
+            bad.append({"desc": desc, "signature": sig, "expected_dim": exp, "complaint": "%d clusters with sizes %s for a single crystal of %d atoms" % (len(clusters), sizes[-5:], len(a)), "atoms": crystals.atoms_to_json(a)})
         elif dims[0] != exp:
-            bad.append({"desc": desc, "complaint": "cluster dimensionality %s, expected %d" % (dims[0], exp), "atoms": crystals.atoms_to_json(a)})
+            bad.append({"desc": desc, "signature": "dimensionality", "expected_dim": exp, "complaint": "cluster dimensionality %s, expected %d" % (dims[0], exp), "atoms": crystals.atoms_to_json(a)})
         elif not f_holds and False:
             pass
     ctx.coverage["contract_F_held"] = contract_ok
     ctx.coverage["contract_F_failed_but_property_judged_separately"] = contract_fail
-    for b in bad[:5]:
-        ctx.finding("crystal:%s:%s" % (b["desc"]["crystal"], b["desc"]["kind"]), "%s %s: %s" % (b["desc"]["crystal"], b["desc"]["kind"], b["complaint"]),
+    seen = set()
+    for b in bad:
+        d = b["desc"]
+        key = "crystal:%s:%s:%s:L%s:pz%s:%s" % (d["crystal"], d["kind"], "".join(map(str, d.get("hkl", ""))) or "-", d.get("layers", "-"),
+                                                  int(bool(d.get("pbc_z", True))), b.get("signature", "?"))
+        if key in seen or len(seen) >= 8:
+            continue
+        seen.add(key)
+        ctx.finding(key, "%s %s: %s" % (b["desc"]["crystal"], b["desc"]["kind"], b["complaint"]),
                     {"kind": "failing-input", "case": b, "how": "SBC().get_clusters(atoms, seed=seed) with default parameters"})
     import finder_helpers
     finder_helpers.check(ctx, broken)
